@@ -155,32 +155,51 @@ def run(ctx: Ctx, rep: Report) -> None:
     # the model that decodes this datagram was created from this datagram's version (never one kept from an earlier datagram)
     from .walkmodel import assigned_value, reaching_defs
 
+    def is_create(expr: Optional[ast.AST]) -> bool:
+        """The expression is (or, through a small helper, returns) the model created from this datagram's version."""
+        if expr is None:
+            return False
+        expr = strip_casts(expr)
+        if expr in creates:
+            return True
+        if isinstance(expr, ast.Call):
+            if ctx.r.call_resolves_to(dec, expr, "puresnmp.plugins.mpm:create"):
+                return True
+            inl = ctx.xexpand(dec, expr, depth=1)
+            return isinstance(inl, ast.Call) and ctx.r.call_resolves_to(dec, inl, "puresnmp.plugins.mpm:create")
+        return False
+
+    # the call that hands the datagram to a message-processing model: <model>.decode(<datagram bytes>, ...)
+    mproc_decodes = []
     for node in own_nodes(dec.node):
-        if isinstance(node, ast.Call) and isinstance(node.func, ast.Attribute) and node.func.attr == "decode" and isinstance(node.func.value, ast.Name):
-            callees = [c for c in ctx.r.callees(dec, node) if isinstance(c, FuncInfo) and c.module.name.startswith("puresnmp_plugins.mpm")]
-            if not callees:
-                continue
-            recv = node.func.value.id
+        if not (isinstance(node, ast.Call) and isinstance(node.func, ast.Attribute) and node.func.attr == "decode"):
+            continue
+        if ctx.r.resolve_class(dec.module, node.func.value) is not None:
+            continue  # Sequence.decode(...) and other class-level decoders
+        callees = [c for c in ctx.r.callees(dec, node) if isinstance(c, FuncInfo) and c.module.name.startswith("puresnmp_plugins.mpm")]
+        takes_datagram = bool(node.args) and kind(node.args[0]) == BYTES
+        if callees or takes_datagram:
+            mproc_decodes.append(node)
+    for node in mproc_decodes:
+        recv_expr = strip_casts(node.func.value)
+        if isinstance(recv_expr, ast.Name):
+            recv = recv_expr.id
             cnode = cfg_node_of(cfg, node)
             rd = reaching_defs(cfg, recv, cnode) if cnode is not None else []
             shared = any(isinstance(n, (ast.Nonlocal, ast.Global)) and recv in n.names for n in own_nodes(dec.node))
-            fresh = bool(rd) and all(assigned_value(d) in creates for d in rd) and not shared and recv not in reg.params
-            rep.check(
-                fresh,
-                "C19-R1",
-                dec.site(node),
-                "the message-processing model used for a datagram is created from that datagram's version on every path (a listener sees v1, v2c and v3 senders)",
-                "a model kept from an earlier datagram may be reused: a first datagram of another version pins the wrong model for the listener's lifetime" if not fresh else "",
-                key=f"{dec.key}|mpm-reused",
-            )
+            fresh = bool(rd) and all(is_create(assigned_value(d)) for d in rd) and not shared and recv not in reg.params
+        else:
+            fresh = is_create(recv_expr)
+        rep.check(
+            fresh,
+            "C19-R1",
+            dec.site(node),
+            "the message-processing model used for a datagram is created from that datagram's version on every path (a listener sees v1, v2c and v3 senders)",
+            "a model kept from an earlier datagram may be reused: a first datagram of another version pins the wrong model for the listener's lifetime" if not fresh else "",
+            key=f"{dec.key}|mpm-reused",
+        )
 
     # ------------------------------------------------------------ R2 / R3
-    mproc_decodes = []
-    for node in own_nodes(dec.node):
-        if isinstance(node, ast.Call) and isinstance(node.func, ast.Attribute) and node.func.attr == "decode":
-            callees = [c for c in ctx.r.callees(dec, node) if isinstance(c, FuncInfo) and c.module.name.startswith("puresnmp_plugins.mpm")]
-            if callees:
-                mproc_decodes.append(node)
     if len(mproc_decodes) != 1:
         rep.undecided("C19-R2", dec.site(), "the datagram is decoded once by the message-processing model", f"{len(mproc_decodes)} decode calls")
         return
